@@ -13,6 +13,7 @@ TRUSTED = ['Coq 8.16.1 kernel; no axioms (closed under the global context); no n
            'internal pop mutex as a lock word (a failed acquisition is a skipped choice), node->next initialisation as a private post-write; the rcu-protected legacy '
            'cds_lfs_*_rcu API and the single-consumer scheme are exercised by the oracle only']
 WFS_MODEL_PROGS = ['P0P1/aa/P2', 'P0/P1/aaa', 'P0P1P2/aa', 'aP0a/P1P2/a']
+WFS_STATE_PROGS = ['P0s/P1', 'P0P1s/a', 'P0s/P1/e', 'P0P1ss/P2']      # the LAST answer of pop_with_state against pushes / pop_all landing right after the pop's exchange
 WFS_ORACLE_PROGS = ['P0P1/ps/P2e', 'P0P1P2/pp/sa', 'P0P1/nn/P2p', 'P0/P1/pe/se', 'P0P1/a/p/P2']
 LFS_PROGS = ['P0P1p/are', 'P0P1P2/pr/a', 'P0P1/pr/pr/e', 'P0P1P2/ar/pp', 'P0P1/p/a/P2r', 'P0P1/par/pe']
 
@@ -46,24 +47,27 @@ def canon_c(out):
 
 def history(raw):
     """[(t, op, arg, ret, call_idx, ret_idx)] from the raw trace; pop_all returns the visited chain (top first)"""
-    open_ = {}; out = []; chain = {}
+    open_ = {}; out = []; chain = {}; pstate = {}
     i = 0
     for l in raw.splitlines():
         p = l.split()
         if len(p) < 2 or not p[0].isdigit(): continue
         i += 1; t, k = p[0], p[1]
         if k == 'call' and p[2] in ('push', 'pop', 'pops', 'popnb', 'popall', 'empty'): open_[t] = (p[2], nid(p[3]), i)
+        elif k == 'note' and p[2] == 'state': pstate[t] = p[3]
         elif k == 'note' and p[2] == 'chain': chain[t] = ','.join(str(int(x) + 2) for x in (p[3] if len(p) > 3 else '').split(',') if x)
         elif k == 'ret' and t in open_ and p[2] == open_[t][0]:
             op, arg, ci = open_.pop(t)
             r = chain.pop(t, '') if op == 'popall' else nid(p[3])
+            if op == 'pops': r = '%s:%s' % (r, pstate.pop(t, '0'))      # the node together with the CDS_WFS_STATE_LAST answer
             out.append((t, op, arg, r, ci, i))
     for t, (op, arg, ci) in open_.items(): out.append((t, op, arg, None, ci, None))
     return out
 
 def lifo_apply(state, op, arg):
     if op == 'push': return state + (arg,), ('1' if state else '0')
-    if op in ('pop', 'pops'): return (state[:-1], state[-1]) if state else (state, '0')
+    if op == 'pop': return (state[:-1], state[-1]) if state else (state, '0')
+    if op == 'pops': return (state[:-1], '%s:%d' % (state[-1], 1 if len(state) == 1 else 0)) if state else (state, '0:0')      # LAST = the stack became empty
     if op == 'popnb': return [(state[:-1], state[-1]) if state else (state, '0'), (state, '-1')]       # WOULDBLOCK is always an allowed answer here
     if op == 'popall': return (), ','.join(reversed(state))
     if op == 'empty': return state, ('0' if state else '1')
@@ -75,7 +79,7 @@ def oracle(p, s, cl, raw):
     # conservation at the end (every operation complete): each pushed node returned at most once per push
     got = []
     for x in h:
-        if x[1] in ('pop', 'pops', 'popnb') and x[3] not in (None, '0', '-1'): got.append(x[3])
+        if x[1] in ('pop', 'pops', 'popnb') and x[3] not in (None, '0', '-1', '0:0'): got.append(x[3].split(':')[0])
         if x[1] == 'popall' and x[3]: got += x[3].split(',')
     pushed = [x[2] for x in h if x[1] == 'push']
     for n in set(got):
@@ -108,7 +112,8 @@ def run(ctx):
     if wimpl:
         corr_schedules(ctx, 'Wfs.v vs static/wfstack.h', wimpl, wmodel, [c for c in corpus('C11') if len(c) == 2 and 'w' == c[0][0]] + gen(ctx, WFS_MODEL_PROGS, n, True, 'C11'),
                        canon_c, oracle=oracle, nontrivial=contended, tail=tail, scenario='scen_wfs (push, pop_all + blocking iteration)')
-        corr_schedules(ctx, 'wfstack LIFO', wimpl, None, gen(ctx, WFS_ORACLE_PROGS, n, True, 'C11'), canon_c, oracle=oracle, nontrivial=contended, tail=tail,
+        sgen = [(prog, '0a' * k + ('>1' if j else '1b' * 30) + '0a' * 40) for prog in WFS_STATE_PROGS for k in range(0, 40) for j in (0, 1)]
+        corr_schedules(ctx, 'wfstack LIFO', wimpl, None, sgen + gen(ctx, WFS_ORACLE_PROGS, n, True, 'C11'), canon_c, oracle=oracle, nontrivial=contended, tail=tail,
                        scenario='scen_wfs (blocking / with-state / non-blocking pop, empty) - oracle only')
     limpl = build_scenario(ctx, 'scen_lfs', 'scen_lfs.c')
     lmodel = build_model_driver(ctx, 'lfs', 'ExtractLfs.v', 'lfs_driver.ml')
